@@ -237,13 +237,17 @@ CLAIMED = {
              'iff it exited 1..126/128..255 or was signalled, an error iff it exited 127 or could not be forked/waited for '
              '(C13_command_status, _run); the command status family of tools/cmdstatus.py (27 programs x 10 shapes on the real binary, 34 '
              'outcomes x 12 rule forms in-process) ties both to the code.',
-        note='Also machine-checked: argv = strings.map (cstr . interpolate), same length and order, no splitting of an argument containing '
+        note='What the CHILD receives is in the model since package p14: Call.fork carries the argument vector and the stdin handle (fork '
+             'followed in the child by dup2 + execvp), C13_child_argv / C13_child_stdin / C13_no_shell are about every fork in the trace of '
+             'mainP under arbitrary call results, C13_fd_hygiene gives the descriptor table at that fork, and Model.conform compares vector '
+             'and handle of every fork of the real binary (the shim keeps the child instrumented until its exec call). '
+             'Also machine-checked: argv = strings.map (cstr . interpolate), same length and order, no splitting of an argument containing '
              'blanks/quotes/globs (C13_argv_exact, _length_order, _no_splitting); the stdin content is C11_exec_stdin. Close-on-exec: in '
              'the model every descriptor-creating call IS its close-on-exec form, so the obligation sits in the trace canonicaliser '
              '(tools/world.py maps only openat/fcntl/mkostemp with exactly the modelled flags; anything else stops the conformance) and '
              'in the helper\'s record of inherited descriptors on the real binary (the seeded changes that drop O_CLOEXEC or install the '
              'descriptor with dup2 are detected that way). fork/execvp/dup2 in the child are the kernel\'s.',
-        technique='Lean 4 proof (program-over-calls model, arbitrary results) + helper-recorded exec observations on the real binary'),
+        technique='Lean 4 proof (program-over-calls model, arbitrary results; fork carries argv and stdin) + call-by-call conformance of the real binary incl. what the child execs + helper-recorded observations'),
     'C14': dict(
         text='Machine-checked: the lexer model (Model/Lex.lean, a transcription of yylex1/yypeek) returns a suffix of its input and every '
              'token but end-of-input consumes at least one byte (C14_lexer_total), reads back keywords, strings and age literals and '
@@ -340,6 +344,28 @@ CLAIMED.update({
 NOT_YET = {
 }
 
+# what the session of 2026-09-30 added per property (appended to level_note; the full list of theorems is DESIGN.md 9.1 and the
+# `theorems` key of every evidence file)
+ADDED = {
+    'C01': 'loss-freedom by file LINEAGE instead of by content (C01_no_loss_exact, C01_main_no_loss_exact, C01_no_duplicate_lineage_single_fault); fuel exhaustion of the walk is a visible flag with sufficiency theorems (C01_walk_fuel_suffices*); evaluation conditions that make system calls are inside mainP (faults hit them).',
+    'C02': 'by-lineage versions (C02_*_exact) and an explicit crash-state model (C02_crash_states_partial); late-failure and attachment-action families; deep thorough tier.',
+    'C03': 'pass/break anywhere in an action list (C03_eval_refines_spec_att_wide, three named deviation classes, F28 listed); evaluation issues no mutating call (C03_evaluation_calls); isolation stage.',
+    'C04': 'evaluation errors reach the root (C04_eval_error_*), exec/command statuses (C04_exec_status_is_error, C04_command_failure_causes), no hidden per-message state (C04_message_independent*), usage errors (C04_usage_status), fuel irrelevance; stdin-delivery fault family, rule-shape family, command-status family, maildir shapes; F27 listed.',
+    'C05': 'world-level frame (C05_dry_world_unchanged, _stdin_world_unchanged/_restored), the command line in the model (C05_options_select_mode, C05_args_*), C05_dry_no_fork (conditions do fork, actions never); maildir shapes, environment lengths, clutter populations.',
+    'C06': 'multibyte text (Model.strnwidth over arbitrary mbtowc/wcwidth, C06_marker_display_columns; fix 951a0f1), C06_dry_exit_le_real; locale families, isolation stage.',
+    'C07': 'libks/buffer.c at index level (C07_L0_buffer_in_bounds, _contents, _read_fd, _needs_room_for_nul); configuration-byte and 8-bit families.',
+    'C08': 'fixes 71eba6c and 4ac7c48 (line breaks in set values); C08_rewrite_preserves_seen, C08_set_value_never_breaks_header, label/add-header theorems without hypotheses on message or value; read-before-rewrite, exact-size and hostile-value families.',
+    'C09': 'C09_genname_real (the code\'s unbounded retry loop), C09_S_after_sequence*, destination theorems restored; flag-transition sequences, relative paths, isolation stage.',
+    'C10': 'locale stages (real run and -d under C and C.utf8 against regexec in the same locale); isolation stage.',
+    'C11': 'fix 098cbec (case-insensitive MIME tokens); an independent RFC 2045 specification of type / encoding / boundary parameter (C11_boundary_param_partial; F30 listed); C11_exec_stdin_body_after_rewrite; spelling and 8-bit families; exec-stdin sequences.',
+    'C12': 'C12_D_overrides, C12_label_value; path look-alike family; interpolated move + flag witness (F26 listed).',
+    'C14': 'grammar translator (Gen/Grammar.lean from bison --xml; C14_printed_in_yacc_grammar, C14_model_parser_uses_grammar, C14_grammar_shape); C14_int_literals for every digit string, C14_macro_exact_name, C14_error_anywhere_rejects_file, C14_usage_error_no_call, C14_getopt_options; macro-name, integer, path-list, pattern-flag, configuration-byte and command-line families; F33 listed.',
+    'C15': 'C15_file_fields, C15_age_literal_exact, an executable strptime model for the regenerated layouts and C15_rfc5322_end_to_end, C15_header_true_age; date text x locale family.',
+    'C16': 'RFC readings next to the code\'s (C16_qp_vs_rfc, C16_rfc2047_vs_rfc), C16_output_buffer_in_bounds; 8-bit sweep.',
+    'C17': 'C17_exactly_once_partial for every action kind, listing parties and the external client; deep two-preemption thorough tier (F31, F32 listed).',
+    'C18': 'limits as parameters and C18_refines_unbounded / C18_no_truncated_path (supersedes "truncation unrepresentable"), pathslice has theorems, defaultconf/readenv (HOME, TMPDIR, TZ) are modelled and swept without -f, sticky interpolation failure (C18_interpolation_failure_*), constants regenerated from the platform headers; position family.',
+}
+
 
 def main():
     checks = []
@@ -353,7 +379,7 @@ def main():
             'replay_cmd_template': 'python3 tools/check.py %s --replay {path}' % pid,
             'engine': 'lean4-proof+correspondence',
             'level_claimed': {'category': c.get('category', 'proof'), 'text': c['text'], 'design_ref': c.get('design_ref', 'DESIGN.md section 4, ' + pid)},
-            'level_note': c['note'],
+            'level_note': c['note'] + (' ADDED 2026-09-30: ' + ADDED[pid] if pid in ADDED else ''),
             'technique': c['technique'],
         })
     man = {
